@@ -387,6 +387,55 @@ def r20c(ctx):
                        f"no diff output precedes it")
 
 
+PREFIX_PARSERS = {"raw_decode": "json.JSONDecoder.raw_decode parses one value and returns the index where it stopped: text after the "
+                                "first complete value is not an error unless the caller checks that index",
+                  "scan_once": "the json scanner's scan_once parses a prefix of the text"}
+
+
+def r20e(ctx):
+    m = ctx.model
+    ctx.rule("R20e", "loaders parse the whole document: an entry point that parses a prefix (json's raw_decode / scan_once) accepts "
+                     "`{...}}` or `[1, 2, 3]]` - a duplicated closing bracket - unless the returned end index is compared with the "
+                     "length of the text")
+    n = 0
+    for q, info in sorted(m.filetypes().items()):
+        typename = info["name"] or ""
+        if typename not in IN_SCOPE:
+            continue
+        bt = m.method(q, "build_tree")
+        seen, todo = set(), [bt]
+        while todo:
+            f = todo.pop()
+            if f is None or f.qual in seen:
+                continue
+            seen.add(f.qual)
+            for c in walk_no_nested(f.node):
+                if not isinstance(c, ast.Call):
+                    continue
+                if isinstance(c.func, ast.Attribute) and c.func.attr in PREFIX_PARSERS:
+                    n += 1
+                    st = c
+                    from ..astx import parent as _parent
+                    while st is not None and not isinstance(st, ast.stmt):
+                        st = _parent(st)
+                    end_checked = False
+                    if isinstance(st, ast.Assign) and isinstance(st.targets[0], ast.Tuple) and len(st.targets[0].elts) == 2 \
+                            and isinstance(st.targets[0].elts[1], ast.Name):
+                        endv = st.targets[0].elts[1].id
+                        end_checked = any(isinstance(x, ast.Compare) and any(isinstance(y, ast.Name) and y.id == endv for y in ast.walk(x))
+                                          and "len(" in ast.unparse(x) for x in walk_no_nested(f.node))
+                    if end_checked:
+                        ctx.proved("R20e", f.file, f.short, c, f"{typename}: {c.func.attr} end checked", "the end index is compared with the length of the text")
+                    else:
+                        ctx.violation("R20e", f.file, f.short, c, f"{typename}: prefix parser {c.func.attr}",
+                                      f"`{norm(c, 60)}`: {PREFIX_PARSERS[c.func.attr]}; the {typename} loader discards it, so a malformed file "
+                                      f"with junk after a complete value is diffed as if it were valid (no error, exit 0)")
+                r = m.resolve_expr(f.module, c.func)
+                if r and r[0] and r[0][0] == "func" and r[0][1] in m.functions:
+                    todo.append(m.functions[r[0][1]])
+    ctx.note(f"R20e: {n} prefix-parser call(s) on loading paths")
+
+
 def r20d(ctx):
     m = ctx.model
     ctx.rule("R20d", "the JSON loader is strict: Python's json.load accepts the non-JSON tokens NaN, Infinity and -Infinity unless "
@@ -414,6 +463,7 @@ def run(ctx):
     r20ab(ctx)
     r20c(ctx)
     r20d(ctx)
+    r20e(ctx)
     ctx.assume("which byte strings a third-party parser rejects is not decided; implicit exceptions inside parsers are covered "
                "only as far as the frozen IMPLICIT_RAISES table goes (each line confirmed by a failing input); MemoryError, "
                "and libyaml's C-stack overflow on tens of thousands of nested brackets (a SIGSEGV, not an exception), are not")
